@@ -23,6 +23,7 @@ import (
 	"oras.land/oras-go/v2/content/file"
 	"oras.land/oras-go/v2/content/memory"
 	"oras.land/oras-go/v2/content/oci"
+	"oras.land/oras-go/v2/registry/remote"
 )
 
 func init() { domains["C03"] = runC03 }
@@ -59,7 +60,10 @@ func runC03(seed int64, tier string, sc *Script) map[string]any {
 	for ci := 0; ci < cases; ci++ {
 		u := GenDAG(rng, GenCfg{Blobs: 1 + rng.Intn(4), Manifests: 2 + rng.Intn(10), Subjects: true, Indexes: true,
 			Foreign: rng.Intn(3) == 0, EmptyBlob: rng.Intn(2) == 0})
-		srcKind := []string{"memory", "oci", "oci-reopen-dir", "oci-reopen-fs", "oci-reopen-tar", "file"}[ci%6]
+		// (a remote repository knows one kind of predecessor: the referrers of a subject,
+		// listed page by page through the Referrers API or read from the referrers tag)
+		srcKind := []string{"memory", "oci", "oci-reopen-dir", "oci-reopen-fs", "oci-reopen-tar", "file", "remote-api", "remote-tags"}[ci%8]
+		remoteSrc := strings.HasPrefix(srcKind, "remote")
 		sc.Case("extcopy-" + srcKind)
 		sc.NonTrivial()
 		sc.Count("src:" + srcKind)
@@ -91,6 +95,17 @@ func runC03(seed int64, tier string, sc *Script) map[string]any {
 			}
 		}
 		switch srcKind {
+		case "remote-api", "remote-tags":
+			reg := newFakeRegistry(regProfile{ReferrersAPI: srcKind == "remote-api", DigestHeaders: true, Ranges: true,
+				PageLimit: []int{0, 1, 2, 3}[rng.Intn(4)], LinkStyle: rng.Intn(2), EmptyPages: rng.Intn(2) == 0})
+			defer reg.Close()
+			r, err := remote.NewRepository(reg.Host() + "/src/repo")
+			if err != nil {
+				panic(err)
+			}
+			r.PlainHTTP = true
+			push(r)
+			src = r
 		case "memory":
 			s := memory.New()
 			push(s)
@@ -145,7 +160,11 @@ func runC03(seed int64, tier string, sc *Script) map[string]any {
 			}
 		}
 		annClass := map[string]int{"": 0, "v0": 1, "v1": 2, "v2": 3}
-		sc.Def("fr new")
+		if remoteSrc {
+			sc.Def("fr new rel=subject")
+		} else {
+			sc.Def("fr new")
+		}
 		for _, n := range u.Nodes {
 			st := 0
 			if stored[n.ID] {
@@ -155,8 +174,12 @@ func runC03(seed int64, tier string, sc *Script) map[string]any {
 			if n.Kind == KForeign {
 				fo = 1
 			}
-			sc.Def("fr node %d succ=%s stored=%d foreign=%d at=%d ann=%d", n.ID, fmtInts(n.Succ), st, fo,
-				atClass[specArtifactType(n)], annClass[n.Annotations["verif.k"]])
+			subj := "-"
+			if n.Subject >= 0 {
+				subj = fmt.Sprint(n.Subject)
+			}
+			sc.Def("fr node %d succ=%s stored=%d foreign=%d at=%d ann=%d subj=%s", n.ID, fmtInts(n.Succ), st, fo,
+				atClass[specArtifactType(n)], annClass[n.Annotations["verif.k"]], subj)
 		}
 		for q := 0; q < 3; q++ {
 			// start node: stored
